@@ -336,6 +336,9 @@ def run(R):
                 hist["graphs"] += 1
                 if not cl["ordered"]:
                     dis.append({"program": name, "what": "dumped order does not respect the edges", "route": h, "closure": cl})
+                if not cl["wf"]:
+                    dis.append({"program": name, "what": "a real call graph is not well-formed in the sense the theorems assume (armsWF)", "route": h, "closure": cl,
+                                "graphs": next(r for r in routes if r["route"] == h)["closures"]})
                 if not cl["resplice"] or not cl["invariant"]:
                     dis.append({"program": name, "what": "the model's splice + branching does not reproduce pavexc's graph (or the observer count invariant fails)", "route": h, "closure": cl,
                                 "graphs": next(r for r in routes if r["route"] == h)["closures"]})
